@@ -3,7 +3,7 @@ import Rawr.Proofs.MakeMoveAbsHash
 /-! C02 assembled: from `ValidPos p` and the move shape to totality of `makemove`, the refinement of
 `Spec.apply`, board consistency of the result, and independence of the `UPDATE_HASH` flag. -/
 namespace Rawr.MM
-open Rawr Rawr.Position Rawr.Spec Rawr.ZH
+open Rawr Rawr.Position Rawr.Spec Rawr.ZH Rawr.SV
 
 /-- the pawn geometry `MoveShape` does not state: a pawn advances one rank, or two ranks straight. -/
 def PawnGeom (p : Position) (m : Mv) : Bool :=
